@@ -40,6 +40,7 @@ DATES = ["2019-03-09", "2020-01-01", "2021-06-15", "2022-12-31"]
 class Mod:
     def __init__(self, name, sub, prefix, belongs="", rev=""):
         self.name, self.sub, self.prefix, self.belongs, self.rev = name, sub, prefix, belongs, rev
+        self.revs = []         # all revision statements in written order (rev is the greatest); [] = just rev
         self.imports = []      # (prefix, module name, revision-date or "")
         self.includes = []     # (submodule name, revision-date or "")
         self.idents = []       # [name, [base strings]]
@@ -248,6 +249,7 @@ def gen_schema(rnd):
             revisionize(rnd, sc)
         elif rnd.random() < 0.5:
             date_some(rnd, sc)
+        old_revisions(rnd, sc)
         rnd.shuffle(sc.mods)
         vis = sc.visible_parts()
         for m in sc.mods:      # see gen_schema1: what Modules.include never visits keeps its includes unresolved
@@ -268,6 +270,21 @@ def date_some(rnd, sc):
         if rnd.random() < 0.5:
             m.rev = rnd.choice(DATES)
     pin_some(rnd, sc)
+
+
+OLD_DATES = ["2001-01-01", "2010-05-05", "2015-07-07", "2018-06-01"]
+
+
+def old_revisions(rnd, sc):
+    """several revision statements per module in arbitrary order (the newest mostly not first)"""
+    for m in sc.mods:
+        if m.rev and rnd.random() < 0.6:
+            older = rnd.sample(OLD_DATES, rnd.choice([1, 1, 2, 3]))
+            if rnd.random() < 0.8:
+                rnd.shuffle(older)
+                m.revs = older[:1] + sorted(older[1:] + [m.rev], key=lambda _: rnd.random())
+            else:
+                m.revs = [m.rev] + older
 
 
 def pin_some(rnd, sc):
@@ -561,8 +578,8 @@ def yang_text(m):
         out.append("  import %s { prefix %s;%s }" % (n, p, " revision-date %s;" % d if d else ""))
     for n, d in m.includes:
         out.append("  include %s%s" % (n, " { revision-date %s; }" % d if d else ";"))
-    if m.rev:
-        out.append("  revision %s;" % m.rev)
+    for r in (m.revs if m.rev and m.revs else [m.rev] if m.rev else []):
+        out.append("  revision %s;" % r)
     for n, bases in m.idents:
         if bases:
             out.append("  identity %s { %s }" % (n, " ".join("base %s;" % b for b in bases)))
@@ -899,6 +916,17 @@ def fixed_schemas():
             u.idents.append(["ux", ["old:x"]])
             mods.append(s)
         out.append(mk("rev", *mods))
+    # revision statements written oldest first: the full name goes by the greatest date
+    r1 = Mod("r", False, "r", rev="2020-09-01")
+    r1.revs = ["2018-06-01", "2020-09-01"]
+    r0 = Mod("r", False, "r", rev="2019-03-01")
+    r1.idents = [["ROOT", []], ["new-kid", ["ROOT"]]]
+    r0.idents = [["ROOT", []], ["old-kid", ["r:ROOT"]]]
+    u = Mod("u", False, "u")
+    u.imports = [("p", "r", ""), ("q", "r", "2019-03-01"), ("n", "r", "2020-09-01")]
+    u.idents = [["d", ["p:ROOT"]], ["e", ["q:ROOT"]], ["f", ["n:ROOT"]]]
+    u.leaves = [("l0", "ref", "p:ROOT"), ("l1", "ref", "q:ROOT")]
+    out.append(mk("rev", r0, u, r1))
     # wholeModule: a submodule queued twice, followed by one with an include nobody else has
     m = Mod("m", False, "m")
     sa, sb, sd, se, sf = [Mod(n, True, "m", "m") for n in ("sa", "sb", "sd", "se", "sf")]
@@ -1006,10 +1034,14 @@ def run_all(schemas, timeout=900):
         go = go_runs(golines, tmp, timeout)
     finally:
         shutil.rmtree(tmp, ignore_errors=True)
-    mllines = [ml_line(sc, o) for sc in schemas for o in ORACLES]
+    mllines = [ml_line(sc, o) for sc in schemas for o in getattr(sc, "oracles", ORACLES)]
     ml = lib.run_ml(mllines)
-    n = len(ORACLES)
-    return [[g[i] for g in go] for i in range(len(schemas))], [ml[i * n:(i + 1) * n] for i in range(len(schemas))]
+    mls, at = [], 0
+    for sc in schemas:
+        k = len(getattr(sc, "oracles", ORACLES))
+        mls.append(ml[at:at + k])
+        at += k
+    return [[g[i] for g in go] for i in range(len(schemas))], mls
 
 
 def run_family(schemas, family, timeout=900):
@@ -1094,6 +1126,46 @@ def gen_wide(rnd, n=None):
     return sc
 
 
+def gen_chain(rnd, length):
+    """a derivation chain of the given length (plus a few side branches) winding through modules and submodules"""
+    sc = Schema()
+    mods = [Mod(n, False, p) for n, p in zip(rnd.sample(NAMES, rnd.choice([1, 2, 3])), rnd.sample(PREFIXES, 3))]
+    sc.mods = list(mods)
+    for n in rnd.sample([x for x in NAMES if x not in [m.name for m in mods]], rnd.choice([0, 1, 2])):
+        o = rnd.choice(mods)
+        s = Mod(n, True, o.prefix, o.name)
+        o.includes.append((n, ""))
+        sc.mods.append(s)
+    names = ["c%03d" % i for i in range(length + 8)]
+    rnd.shuffle(names)
+    chain, edges = [], []
+    for i in range(length):
+        part = rnd.choice(sc.mods) if rnd.random() < 0.3 or not chain else chain[-1][0]
+        ident = [names[i], []]
+        part.idents.append(ident)
+        if chain:
+            ident[1].append(ref_string(rnd, sc, part, chain[-1][0], chain[-1][1]))
+            edges.append(((part, names[i]), chain[-1]))
+        chain.append((part, names[i]))
+    for j in range(rnd.choice([0, 2, 8])):     # side branches, some with two bases
+        part = rnd.choice(sc.mods)
+        ident = [names[length + j], []]
+        part.idents.append(ident)
+        for bp, bn in rnd.sample(chain, rnd.choice([1, 2])):
+            ident[1].append(ref_string(rnd, sc, part, bp, bn))
+            edges.append(((part, ident[0]), (bp, bn)))
+    for part in sc.mods:
+        rnd.shuffle(part.idents)
+    h = rnd.choice(sc.mods)
+    h.leaves.append(("lc", "ref", ref_string(rnd, sc, h, chain[0][0], chain[0][1])))
+    sc.edges = edges
+    sc.variant = "clean"
+    rnd.shuffle(sc.mods)
+    if length > 150:
+        sc.oracles = ORACLES[:1]       # (the model's sort looks every name up in the dictionary: quadratic-cubic)
+    return sc
+
+
 def gen_includes(rnd):
     """one module and 4-6 submodules whose include statements form a random DAG (diamonds, duplicates in
     wholeModule's queue followed by chains), identities in every submodule"""
@@ -1160,14 +1232,16 @@ def gen(tier, seed):
     wide = [gen_wide(rnd, k) for k in (30, 31, 32, 33, 34, 40, 64, 100)] + \
            [gen_wide(rnd) for _ in range(30 if tier == "quick" else 300)]
     incl = [gen_includes(rnd) for _ in range(400 if tier == "quick" else 6000)]
-    return fixed_schemas() + wide + incl + [gen_schema(rnd) for _ in range(n)]
+    chains = [gen_chain(rnd, k) for k in ((60, 64, 65, 66, 67, 70, 100, 100, 100, 130, 160) if tier == "quick" else
+                                          tuple(range(60, 71)) + (100,) * 6 + (130,) * 4 + (200, 200, 250))]
+    return fixed_schemas() + wide + chains + incl + [gen_schema(rnd) for _ in range(n)]
 
 
 def replay_of(sc):
     return dict(kind="correspondence", variant=sc.variant, go_case=go_line(sc),
                 auto_case=go_line(sc, auto=True) if sc.auto else None, auto_parts=[m.name for m in sc.auto],
                 late_case=go_line(sc, late=True) if sc.late else None, late_parts=[m.name for m in sc.late],
-                ml_cases=[ml_line(sc, o) for o in ORACLES],
+                ml_cases=[ml_line(sc, o) for o in getattr(sc, "oracles", ORACLES)],
                 texts={full(m) + (".sub" if m.sub else "") + ".yang": yang_text(m) for m in sc.mods})
 
 
@@ -1215,7 +1289,8 @@ def run(res, tier, seed, proof):
              "expectation, the model decides (rev_accepted counts the accepted ones); two more generators: wide "
              "derivation graphs (ROOT, 2-3 identities derived from it, 30..100 identities derived from several of "
              "those, chains below) and include graphs (one module, 4-6 submodules, random include DAG with diamonds "
-             "and chains, identities in every submodule); "
+             "and chains, identities in every submodule) and derivation chains of 60..160 (thorough: 250) identities winding "
+             "through modules and submodules; several revision statements per module in arbitrary order; "
              "each schema: %d implementation runs, %d model runs with different iteration oracles; family auto-loaded: "
              "for most schemas one more implementation run in which a subset of the imported modules / included "
              "submodules is not parsed but put on the search path, so that Process loads it itself -- the result "
